@@ -126,33 +126,34 @@ def lookup (k : String) : List (String × Val) → Option Val
   | [] => none
   | (k', v) :: rest => if k' == k then some v else lookup k rest
 
-/-- positional arguments go to the positional parameters in order -/
-def bindPos : List Param → List Val → Option (List (String × Val))
-  | _, [] => some []
-  | [], _ :: _ => none                       -- too many positional arguments
-  | p :: ps, v :: vs => (bindPos ps vs).map ((p.name, v) :: ·)
+/-- the positional parameters that receive the call's positional arguments -/
+def posTaken (ps : List Param) (c : Call) : List Param := (ps.filter (!·.kwOnly)).take c.pos.length
 
-/-- keyword arguments: must name a parameter that has no value yet -/
-def bindKw (ps : List Param) : List (String × Val) → List (String × Val) → Option (List (String × Val))
-  | [], acc => some acc
-  | (k, v) :: rest, acc =>
-    if ps.any (·.name == k) && (lookup k acc).isNone then bindKw ps rest (acc ++ [(k, v)]) else none
+def supplied (ps : List Param) (c : Call) (p : Param) : Bool :=
+  (posTaken ps c).any (·.name == p.name) || c.kw.any (·.1 == p.name)
 
-/-- every parameter without a value takes its default or the call fails -/
-def fillDefaults : List Param → List (String × Val) → Option (List (String × Val))
-  | [], _ => some []
-  | p :: ps, env =>
-    match lookup p.name env, p.dflt with
-    | some v, _ => (fillDefaults ps env).map ((p.name, v) :: ·)
-    | none, some d => (fillDefaults ps env).map ((p.name, d) :: ·)
-    | none, none => none
+/-- CPython accepts a call of `def __init__(self, p1, …, *, k1, …)` iff: not too many positional arguments,
+    every keyword names a parameter, no parameter gets two values, no mandatory parameter is left without
+    one.  (Keyword names within one call are distinct by Python's syntax.) -/
+def callOk (ps : List Param) (c : Call) : Bool :=
+  c.pos.length ≤ (ps.filter (!·.kwOnly)).length &&
+  c.kw.all (fun kv => ps.any (·.name == kv.1)) &&
+  c.kw.all (fun kv => !(posTaken ps c).any (·.name == kv.1)) &&
+  ps.all (fun p => p.dflt.isSome || supplied ps c p)
 
-/-- CPython's binding of `call` to `def __init__(self, p1, …, *, k1, …)`; `none` = TypeError -/
-def bind (ps : List Param) (c : Call) : Option (List (String × Val)) := do
-  let posPs := ps.filter (!·.kwOnly)
-  let e1 ← bindPos posPs c.pos
-  let e2 ← bindKw ps c.kw e1
-  fillDefaults ps e2
+/-- the value passed for parameter `n`, if any: positional first, then keyword -/
+def passed (ps : List Param) (c : Call) (n : String) : Option Val :=
+  match lookup n ((posTaken ps c).map (·.name) |>.zip c.pos) with
+  | some v => some v
+  | none => lookup n c.kw
+
+/-- CPython's binding of `call` to the parameter list: `none` = TypeError, otherwise every parameter bound to
+    the passed value or its default.  This is the trusted-as-Python fragment (stated declaratively; the
+    correspondence check compares it with real calls, malformed ones included). -/
+def bind (ps : List Param) (c : Call) : Option (List (String × Val)) :=
+  if callOk ps c then
+    some (ps.map (fun p => (p.name, (passed ps c p.name).getD (p.dflt.getD "?"))))
+  else none
 
 /-! ## Slot belief (`_is_slot_attr` over `base_attr_map`) -/
 
